@@ -1,13 +1,16 @@
 #!/bin/bash
 # usage: tools/seedcheck.sh <ID> <tier> <PROP> [PROP...]
-# Runs the named checks against the scratch worktree /tmp/seed/<ID> (seeded change applied there, demonstration moved
-# aside) through VERIF_REPO, so that /repo is not touched and several seeded changes can be checked side by side.
+# Runs the named checks against a fresh scratch worktree of /repo with the seeded change /tmp/seed/<ID>/patch.diff
+# applied (through VERIF_REPO), so that /repo is not touched and several seeded changes can be checked side by
+# side; the worktree and its build output are removed afterwards.
 set -u
 id=$1; tier=$2; shift 2
-d=${SEEDBASE:-/tmp/seed}/$id
-cd $d || exit 2
-git checkout -q -- . ; git apply patch.diff || { echo "patch does not apply"; exit 2; }
-mkdir -p ${SEEDBASE:-/tmp/seed}/aside_$id; mv -f zz_demo*_test.go mux/zz_demo*_test.go ${SEEDBASE:-/tmp/seed}/aside_$id/ 2>/dev/null
+src=${SEEDBASE:-/tmp/seed}/$id
+d=/tmp/seedchk/$id
+mkdir -p /tmp/seedchk
+git -C /repo worktree remove --force $d 2>/dev/null
+git -C /repo worktree add -q --detach $d HEAD || exit 2
+( cd $d && git apply $src/patch.diff ) || { echo "patch does not apply"; git -C /repo worktree remove --force $d; exit 2; }
 for p in "$@"; do
   t0=$(date +%s)
   out=$(cd /verif && VERIF_REPO=$d VERIF_WORK_SUFFIX=-$id python3 vcheck.py $p $tier 2>&1)
@@ -15,4 +18,6 @@ for p in "$@"; do
   t1=$(date +%s)
   sig=$(echo "$out" | grep -m1 '^  \[' | cut -c1-260)
   echo "RESULT $id $p $tier rc=$rc $((t1-t0))s $sig"
+  rm -rf /verif/work/$p-$tier-$id
 done
+git -C /repo worktree remove --force $d
